@@ -333,6 +333,12 @@ func (s *Sched) quiesce(fr *Frame) {
 	}
 	g.state, g.cond, g.what = gRunnable, nil, ""
 	for _, o := range s.gs {
+		if o.state == gBlocked && strings.HasPrefix(o.what, "channel send") {
+			s.c.violation("deadlock:stuck-send", o.cur, "at quiescence a goroutine is blocked for ever in a channel send: "+fmt.Sprintf("g%d(%s) waits for %s", o.id, o.name, o.what))
+			break
+		}
+	}
+	for _, o := range s.gs {
 		if o.state == gBlocked && o.onMutex != nil {
 			var ws []string
 			for _, p := range s.gs {
